@@ -90,3 +90,12 @@ check(
     "property-based testing: differential against GET + metamorphic relation (order / subset independence)",
     "DESIGN.md section 3 C17",
 )
+
+check(
+    "C14",
+    "exploration",
+    "Generated valid and invalid iCalendar/vCard bodies are PUT over HTTP (tree and bare git, both front ends) and imported into memory and vdir stores: valid bodies must be served property-for-property equal (independent parser) and be a fixed point of re-upload (ETag, bytes, collection tag, commit count); invalid bodies must be refused without any trace. Thorough tier adds a coverage-guided atheris campaign (16 x 60 s) on ICalendarFile with the fixed-point oracle inside the target.",
+    "Trusted: xv/icalref.py as independent content-line parser; git rev-list for the commit count.",
+    "property-based testing (round-trip + idempotence oracle) and coverage-guided fuzzing with an in-target oracle",
+    "DESIGN.md section 3 C14",
+)
